@@ -185,12 +185,12 @@ func (srv *Server) newTypeMap() *pgtype.Map {
 
 // Close gracefully closes the underlaying Postgres server.
 func (srv *Server) Close() error {
-	if srv.closing.Load() {
-		return nil
+	// NOTE: only a single caller is allowed to close the closer channel, Close
+	// could be called multiple times and from multiple goroutines at once.
+	if srv.closing.CompareAndSwap(false, true) {
+		close(srv.closer)
 	}
 
-	srv.closing.Store(true)
-	close(srv.closer)
 	srv.wg.Wait()
 	return nil
 }
